@@ -836,15 +836,20 @@ impl<'a> Searcher<'a> {
         }
         
         if let Some(ref _function) = column_expr.function {
-            let result =
-                self.get_function_value(entry, file_info, file_map, buffer_data, column_expr);
+            let result = Self::apply_minus(
+                self.get_function_value(entry, file_info, file_map, buffer_data, column_expr),
+                column_expr.minus,
+            );
             file_map.insert(column_expr_str, result.to_string());
             return result;
         }
 
         if let Some(ref field) = column_expr.field {
             if entry.is_some() {
-                let result = self.get_field_value(entry.unwrap(), file_info, field);
+                let result = Self::apply_minus(
+                    self.get_field_value(entry.unwrap(), file_info, field),
+                    column_expr.minus,
+                );
                 file_map.insert(column_expr_str, result.to_string());
                 return result;
             } else if let Some(val) = file_map.get(&field.to_string()) {
@@ -868,7 +873,7 @@ impl<'a> Searcher<'a> {
                 if let Some(ref right) = column_expr.right {
                     let right_result =
                         self.get_column_expr_value(entry, file_info, file_map, buffer_data, right);
-                    result = op.calc(&left_result, &right_result);
+                    result = Self::apply_minus(op.calc(&left_result, &right_result), column_expr.minus);
                     file_map.insert(column_expr_str, result.to_string());
                 } else {
                     result = left_result;
@@ -881,6 +886,22 @@ impl<'a> Searcher<'a> {
         }
 
         result
+    }
+
+    /// A leading minus negates the numeric value of its operand (a column, a function call or a bracket).
+    fn apply_minus(value: Variant, minus: bool) -> Variant {
+        if !minus {
+            return value;
+        }
+
+        match value.get_type() {
+            VariantType::Int => Variant::from_int(-value.to_int()),
+            VariantType::Float => Variant::from_float(-value.to_float()),
+            _ => match value.to_string().parse::<f64>() {
+                Ok(number) => Variant::from_float(-number),
+                _ => value,
+            },
+        }
     }
 
     fn get_function_value(
